@@ -656,7 +656,9 @@ impl DbInner {
 		#[cfg(pdb_verif)]
 		crate::verif::yield_point("commit_changes.before_commit_raw");
 
-		self.commit_raw(commit)
+		// The background error was tested above, before anything was claimed; an error stored
+		// since then is concurrent with this call, which is accepted as if queued just before it.
+		self.commit_raw_checked(commit, false)
 	}
 
 	// Side-effect free check that `change` is acceptable for column `col`.
@@ -729,6 +731,10 @@ impl DbInner {
 	}
 
 	fn commit_raw(&self, commit: CommitChangeSet) -> Result<()> {
+		self.commit_raw_checked(commit, true)
+	}
+
+	fn commit_raw_checked(&self, commit: CommitChangeSet, check_bg_err: bool) -> Result<()> {
 		let mut queue = self.commit_queue.lock();
 
 		#[cfg(any(test, feature = "instrumentation"))]
@@ -745,7 +751,7 @@ impl DbInner {
 			self.commit_queue_full_cv.wait(&mut queue);
 		}
 
-		{
+		if check_bg_err {
 			let bg_err = self.bg_err.lock();
 			if let Some(err) = &*bg_err {
 				return Err(Error::Background(err.clone()))
